@@ -206,4 +206,44 @@ def f(table, **kwargs):
     kwargs.setdefault('y', 2)
     return g(table, **kwargs)
 ''', True),
+    # --- shapes added after a round-5 sub-agent ported the analysis and probed it
+    ('buffer_escapes_through_a_binary_operation', '''
+def f(source):
+    buf = []
+    for row in source:
+        buf.append(row[0])
+        yield (len(buf),) + (buf,)
+''', False),
+    ('buffer_escapes_through_a_call_in_the_yield', '''
+def f(source, wrap):
+    buf = []
+    for row in source:
+        buf.append(row[0])
+        yield wrap(buf)
+''', False),
+    ('buffer_copied_in_the_yield', '''
+def f(source):
+    buf = []
+    for row in source:
+        buf.append(row[0])
+        yield tuple(buf)
+''', True),
+    ('bound_method_alias_of_a_source_row', '''
+def f(source, n, missing):
+    for row in source:
+        grow = row.extend
+        grow([missing] * n)
+        yield tuple(row)
+''', False),
+    ('inplace_operator_function_over_source_rows', '''
+def f(sources):
+    for rows in zip(*sources):
+        yield tuple(reduce(operator.iconcat, rows))
+''', False),
+    ('getattr_of_a_mutator_on_a_source_row', '''
+def f(source, value):
+    for row in source:
+        getattr(row, 'append')(value)
+        yield tuple(row)
+''', False),
 ]
